@@ -32,11 +32,15 @@ def tiers(tier):
     return {'runs': 12000, 'wall': 70, 'det_runs': 10}
 
 
-def _nested_same_generic(h, inside=None):
-    if h['k'] == 'gen':
-        if inside == h['n']:
+_CONTAINER_GENERICS = ('ListBox', 'Shelf')       # user generics with a container base over the TypeVar T (Shelf's base mentions ListBox)
+
+
+def _nested_same_generic(h, inside=False):
+    """A container-based user generic nested (at any depth) inside another one: ListBox[ListBox[str]], ListBox[Shelf[A]]."""
+    if h['k'] == 'gen' and h['n'] in _CONTAINER_GENERICS:
+        if inside:
             return True
-        return any(_nested_same_generic(a, h['n']) for a in h.get('a', []) if isinstance(a, dict))
+        return any(_nested_same_generic(a, True) for a in h.get('a', []) if isinstance(a, dict))
     return any(_nested_same_generic(a, inside) for a in h.get('a', []) or [] if isinstance(a, dict))
 
 
